@@ -28,7 +28,7 @@ fn run(program: &crate::program::Program) -> Result<bool, String> {
 }
 
 fn generic_type_ids() -> Vec<String> {
-    let mut ids: std::collections::BTreeSet<String> = ["AddMod", "AddModGate", "Array", "Bitwise", "Blake2sState", "BoundedInt", "BoundedIntGuarantee", "Box", "BuiltinCosts", "Circuit", "CircuitData", "CircuitDescriptor", "CircuitFailureGuarantee", "CircuitInput", "CircuitInputAccumulator", "CircuitModulus", "CircuitOutputs", "CircuitPartialOutputs", "ClassHash", "Const", "ContractAddress", "Coupon", "EcOp", "EcPoint", "EcState", "Enum", "Felt252Dict", "Felt252DictEntry", "GasBuiltin", "GasReserve", "IntRange", "InverseGate", "MulMod", "MulModGate", "NonZero", "Nullable", "Pedersen", "Poseidon", "RangeCheck", "RangeCheck96", "Secp256k1Point", "Secp256r1Point", "SegmentArena", "Sha256StateHandle", "Sha512StateHandle", "Snapshot", "Span", "SquashedFelt252Dict", "StorageAddress", "StorageBaseAddress", "Struct", "SubModGate", "System", "U128MulGuarantee", "U96Guarantee", "U96LimbsLtGuarantee", "Uninitialized", "bytes31", "felt252", "qm31", "u8", "u16", "u32", "u64", "u128", "i8", "i16", "i32", "i64", "i128"].iter().map(|s| s.to_string()).collect();
+    let mut ids: std::collections::BTreeSet<String> = GENERIC_TYPE_IDS.iter().map(|s| s.to_string()).collect();
     // every generic type id used by the repository's own Sierra files
     let mut root = std::path::PathBuf::from(env!("CARGO_MANIFEST_DIR"));
     root.pop();
